@@ -61,6 +61,21 @@ def cases(tier, seed):
             for vs in itertools.product(["ok", "block"], repeat=k * turns):
                 i += 1
                 yield dict(_mk("v2", "v2", k, 1, turns, vs, cid="e%d" % i), id=i)
+    # directed: conversation carried through the state object for >=3 turns, with and without rail exceptions,
+    # earlier turns rejected at every rail position (found by the thorough tier: v1-state-api-history-truncated)
+    for mode in ("passthrough", "general", "dialog"):
+        for exc in (True, False):
+            for k in (2, 3):
+                for b0 in range(k):
+                    for b1 in range(k):
+                        vs = []
+                        for t, b in ((0, b0), (1, b1)):
+                            vs += ["ok"] * b + ["block"] + ["ok"] * (k - b - 1)
+                        vs += ["ok"] * k + ["ok"] * k
+                        i += 1
+                        c = _mk("v1", mode, k, 1, 4, vs, exc=exc, cid="s%d" % i)
+                        c["api"] = "state"
+                        yield dict(c, id=i)
     rng = random.Random(77 + seed)
     n1, n2 = (500, 60) if tier == "quick" else (6000, 600)
     for _ in range(n1):
